@@ -1,6 +1,16 @@
-(* Proto/Tei.v (draft): tei/server.go Engine.Run over a list of input lines (ASCII), with the searcher of Search.v *)
+(* Tei.v: code-shaped model of tei/server.go (Engine.Run, parsePosition, analyze) of the REPAIRED tree
+   (fix commits f938f55 calcBudget/haveClock, 84e634c "TEI engine reports an error instead of crashing").
+
+   The searcher (ai.MinimaxAI behind Engine.mm) is a parameter of the model: a state type [SS], the constructor
+   [mk_searcher size] (= ai.NewMinimax(ConfigFactory(size))) and [search mm limit p] (= mm.Analyze(ctx, p), where [limit] is
+   the timeout put on the context: None = none).  TeiInst.v instantiates it with the search model of Search.v.
+   MinimaxAI.Analyze panics when the searcher was built for another size than the position's; that check is in the model
+   ([analyze_mm]), so that "Run never panics" has content.
+
+   Input is a list of bytes (N < 256).  [step] is one iteration of Run's loop on one line, [run] is Run on a list of
+   lines, [run_bytes] is Run on a byte stream (a last line without "\n" is dropped, as bufio.ReadString + the EOF test do). *)
 From Coq Require Import NArith ZArith List Bool Lia Ascii String.
-Require Import Board Move GameOver Eval PtnMove Playtak Tps PtnFile Search TeiBudget.
+Require Import Board Move GameOver PtnMove Playtak Tps TeiBudget.
 Import ListNotations.
 Local Open Scope char_scope.
 Local Open Scope N_scope.
@@ -8,142 +18,253 @@ Local Open Scope N_scope.
 Notation res := Move.res.
 Notation Ok := Move.Ok. Notation Err := Move.Err. Notation Panic := Move.Panic.
 
-Definition bs (l : list ascii) : list N := map N_of_ascii l.
 Fixpoint str (s : String.string) : list N := match s with String.EmptyString => [] | String.String c r => N_of_ascii c :: str r end.
 
-(* strings.Fields on ASCII input *)
-Fixpoint fields_go (s : list N) (cur : list N) : list (list N) :=
+(* ---- strings.TrimSpace / strings.Fields: unicode.IsSpace on UTF-8 input ----
+   White space = '\t' '\n' '\v' '\f' '\r' ' ' U+0085 U+00A0 U+1680 U+2000..U+200A U+2028 U+2029 U+202F U+205F U+3000.
+   The lead bytes C2 E1 E2 E3 are never continuation bytes, so Go's rune decoder is always aligned on them; every other
+   byte (also an invalid or incomplete sequence, decoded as U+FFFD of width 1) belongs to a word. *)
+Definition ascii_space (c : N) : bool := (c =? 9) || (c =? 10) || (c =? 11) || (c =? 12) || (c =? 13) || (c =? 32).
+Definition space_len (s : list N) : nat :=
   match s with
-  | [] => match cur with [] => [] | _ => [rev cur] end
-  | c :: r => if is_space c then (match cur with [] => fields_go r [] | _ => rev cur :: fields_go r [] end) else fields_go r (c :: cur)
+  | c :: r =>
+    if ascii_space c then 1%nat else
+    if c =? 194 then (match r with d :: _ => if (d =? 133) || (d =? 160) then 2%nat else 0%nat | [] => 0%nat end) else
+    if c =? 225 then (match r with 154 :: 128 :: _ => 3%nat | _ => 0%nat end) else
+    if c =? 226 then (match r with
+                      | 128 :: d :: _ => if ((128 <=? d) && (d <=? 138)) || (d =? 168) || (d =? 169) || (d =? 175) then 3%nat else 0%nat
+                      | 129 :: 159 :: _ => 3%nat
+                      | _ => 0%nat end) else
+    if c =? 227 then (match r with 128 :: 128 :: _ => 3%nat | _ => 0%nat end) else 0%nat
+  | [] => 0%nat
   end.
-Definition fields (s : list N) : list (list N) := fields_go s [].
 
-Record engine := { e_mm : option sstate; e_pos : option position; e_size : Z }.
-Inductive status := Running | Quit | Failed | Crashed.
+Definition flush (cur : list N) (k : list (list N)) : list (list N) := match cur with [] => k | _ => rev cur :: k end.
+(* [skip] = bytes of the current space rune still to be dropped *)
+Fixpoint fields_go (s : list N) (skip : nat) (cur : list N) : list (list N) :=
+  match s with
+  | [] => flush cur []
+  | c :: r =>
+    match skip with
+    | S k => fields_go r k cur
+    | O => match space_len s with
+           | O => fields_go r O (c :: cur)
+           | S k => flush cur (fields_go r k [])
+           end
+    end
+  end.
+Definition fields (s : list N) : list (list N) := fields_go s 0 [].
+
+(* ---- strconv ---- *)
+(* strconv.Atoi's value and error flag: syntax error -> 0, out of int64 -> clamped *)
+Definition atoi_go (s : list N) : Z * bool :=
+  match Playtak.atoi s with
+  | Some z => (z, true)
+  | None =>
+    let '(neg, ds) := match s with
+                      | c :: r => if c =? B "+" then (false, r) else if c =? B "-" then (true, r) else (false, s)
+                      | [] => (false, []) end in
+    match ds with
+    | [] => (0%Z, false)
+    | _ => match Playtak.digits ds 0%Z with
+           | Some _ => ((if neg then - 2 ^ 63 else 2 ^ 63 - 1)%Z, false)       (* digits only, so the failure was the range *)
+           | None => (0%Z, false)
+           end
+    end
+  end.
+
+Fixpoint digits_only (s : list N) (acc : N) : option N :=
+  match s with [] => Some acc | d :: r => if in_range (B "0") (B "9") d then digits_only r (acc * 10 + (d - B "0")) else None end.
+(* strconv.ParseUint(s, 10, 64) *)
+Definition parse_uint (s : list N) : option N :=
+  match s with [] => None | _ => match digits_only s 0 with Some v => if v <? 2 ^ 64 then Some v else None | None => None end end.
+
+Record targs := { movetime : Z; wtime : Z; btime : Z; winc : Z; binc : Z }.      (* time.Duration: wrapped int64 ns *)
+Definition targs0 := {| movetime := 0; wtime := 0; btime := 0; winc := 0; binc := 0 |}.
+Definition s_movetime := str "movetime". Definition s_wtime := str "wtime". Definition s_btime := str "btime".
+Definition s_winc := str "winc". Definition s_binc := str "binc".
+Fixpoint parse_go (ws : list (list N)) (a : targs) : option targs :=
+  match ws with
+  | [] => Some a
+  | [_] => None
+  | opt :: arg :: r =>
+    let known := bytes_eqb opt s_movetime || bytes_eqb opt s_wtime || bytes_eqb opt s_btime || bytes_eqb opt s_winc || bytes_eqb opt s_binc in
+    if negb known then None else
+    match parse_uint arg with
+    | None => None
+    | Some ms_ =>
+      let d := wrap64 (1000000 * wrap64 (Z.of_N ms_)) in
+      let a := if bytes_eqb opt s_movetime then {| movetime := d; wtime := wtime a; btime := btime a; winc := winc a; binc := binc a |}
+               else if bytes_eqb opt s_wtime then {| movetime := movetime a; wtime := d; btime := btime a; winc := winc a; binc := binc a |}
+               else if bytes_eqb opt s_btime then {| movetime := movetime a; wtime := wtime a; btime := d; winc := winc a; binc := binc a |}
+               else if bytes_eqb opt s_winc then {| movetime := movetime a; wtime := wtime a; btime := btime a; winc := d; binc := binc a |}
+               else {| movetime := movetime a; wtime := wtime a; btime := btime a; winc := winc a; binc := d |} in
+      parse_go r a
+    end
+  end.
+
+(* the timeout analyze puts on the context: the clock of the side to move *)
+Definition go_limit (white_to_move : bool) (a : targs) : option Z :=
+  let '(tm, inc) := if white_to_move then (wtime a, winc a) else (btime a, binc a) in
+  if ((0 <? movetime a) || (0 <? tm))%Z then Some (calc_budget_fixed (movetime a) tm inc) else None.
+
+Inductive status := Running | Quit | Failed | Crashed.       (* loop continues / Run returns nil / returns an error / panics *)
 
 Section E.
 Variable basis : list N.
-Variable mkcfg : Z -> config.                       (* ConfigFactory *)
-Definition tmove := move_prealloc (hash_sq basis) false.
+Variable SS : Type.
+Variable mk_searcher : Z -> SS.
+Variable search : SS -> option Z -> position -> SS * (list rmove * Z * Z * Z).      (* pv, value, Stats.Depth, Stats.Visited *)
 
-Definition new_pos (sz : Z) : res position := tak_new basis sz.
+Record engine := { e_mm : option (Z * SS); e_pos : option position; e_size : Z }.   (* the Z beside the searcher: the size it was built for *)
+Definition engine0 := {| e_mm := None; e_pos := None; e_size := 0 |}.              (* NewEngine *)
+
+Definition tmove := move_prealloc (hash_sq basis) true.
+Definition to_rmove (m : PtnMove.move) : rmove := {| Move.mX := PtnMove.mX m; Move.mY := PtnMove.mY m; Move.mT := PtnMove.mT m; Move.mS := PtnMove.mS m |}.
+Definition of_rmove (m : rmove) : PtnMove.move := {| PtnMove.mX := Move.mX m; PtnMove.mY := Move.mY m; PtnMove.mT := Move.mT m; PtnMove.mS := Move.mS m |}.
+
+(* tak.New(tak.Config{Size: size}) *)
+Definition new_pos (sz : Z) : res position :=
+  if ((sz <? 0) || (8 <? sz))%Z then Panic                       (* defaultPieces[size] *)
+  else if (sz <? 3)%Z then Panic                                  (* alloc: panic("illegal size") *)
+  else Ok (from_squares basis (Z.to_N sz) (repeat (repeat [] (Z.to_nat sz)) (Z.to_nat sz)) 0).
 
 Fixpoint apply_moves (p : position) (ws : list (list N)) : res position :=
   match ws with
   | [] => Ok p
   | w :: r => match parse_move w with
               | PtnMove.Ok m => match tmove p (to_rmove m) with Ok q => apply_moves q r | Err => Err | Panic => Panic end
-              | _ => Err
+              | PtnMove.Err => Err
+              | PtnMove.Panic => Panic
               end
   end.
 
+Definition s_startpos := str "startpos". Definition s_tps := str "tps". Definition s_moves := str "moves".
+(* the start position named by words[1..] and the words after it *)
+Definition parse_start (size : Z) (w0 : list N) (rest : list (list N)) : res (position * list (list N)) :=
+  if bytes_eqb w0 s_startpos then
+    if ((size <? 3) || (8 <? size))%Z then Err                                                  (* repair 84e634c *)
+    else match new_pos size with Ok p => Ok (p, rest) | Err => Err | Panic => Panic end
+  else if bytes_eqb w0 s_tps then
+    if (List.length (w0 :: rest) <? 4)%nat then Err else
+    match parse_tps basis (nth 0 rest [] ++ [32] ++ nth 1 rest [] ++ [32] ++ nth 2 rest []) with
+    | Ok p => if (Z.of_N (Move.size p) =? size)%Z then Ok (p, skipn 3 rest) else Err
+    | Err => Err | Panic => Panic
+    end
+  else Err.
+
+(* parsePosition(size, words); words = "position" :: ws *)
 Definition parse_position (size : Z) (ws : list (list N)) : res position :=
-  match tl ws with
+  match ws with
   | [] => Err
   | w0 :: rest =>
-    let start : res (position * list (list N)) :=
-      if bytes_eqb w0 (str "startpos"%string) then match new_pos size with Ok p => Ok (p, rest) | Err => Err | Panic => Panic end
-      else if bytes_eqb w0 (str "tps"%string) then
-        if (List.length (w0 :: rest) <? 4)%nat then Err else
-        match parse_tps basis (nth 0 rest [] ++ [32] ++ nth 1 rest [] ++ [32] ++ nth 2 rest []) with
-        | Ok p => if (Z.of_N (Move.size p) =? size)%Z then Ok (p, skipn 3 rest) else Err
-        | Err => Err | Panic => Panic
-        end
-      else Err in
-    match start with
+    match parse_start size w0 rest with
     | Ok (p, more) =>
       match more with
       | [] => Ok p
-      | m0 :: ms => if bytes_eqb m0 (str "moves"%string) then apply_moves p ms else Err
+      | m0 :: ms => if bytes_eqb m0 s_moves then apply_moves p ms else Err
       end
     | Err => Err | Panic => Panic
     end
   end.
 
-(* uint64 milliseconds -> time.Duration (int64 ns, wrapping) *)
-Fixpoint digits_only (s : list N) (acc : N) : option N :=
-  match s with [] => Some acc | d :: r => if in_range (B "0") (B "9") d then digits_only r (acc * 10 + (d - B "0")) else None end.
-Definition parse_uint (s : list N) : option N :=
-  match s with [] => None | _ => match digits_only s 0 with Some v => if v <? 2 ^ 64 then Some v else None | None => None end end.
+(* MinimaxAI.Analyze: panic("Analyze: wrong size") *)
+Definition analyze_mm (mm : Z * SS) (limit : option Z) (p : position) : res (SS * (list rmove * Z * Z * Z)) :=
+  if (fst mm =? Z.of_N (Move.size p))%Z then Ok (search (snd mm) limit p) else Panic.
 
-Record targs := { movetime : Z; wtime : Z; btime : Z; winc : Z; binc : Z }.
-Fixpoint parse_go (ws : list (list N)) (a : targs) : option targs :=
-  match ws with
-  | [] => Some a
-  | [_] => None
-  | opt :: arg :: r =>
-    let known := bytes_eqb opt (str "movetime"%string) || bytes_eqb opt (str "wtime"%string) || bytes_eqb opt (str "btime"%string) ||
-                 bytes_eqb opt (str "winc"%string) || bytes_eqb opt (str "binc"%string) in
-    if negb known then None else
-    match parse_uint arg with
-    | None => None
-    | Some ms_ =>
-      let d := wrap64 (1000000 * wrap64 (Z.of_N ms_)) in
-      let a := if bytes_eqb opt (str "movetime"%string) then {| movetime := d; wtime := wtime a; btime := btime a; winc := winc a; binc := binc a |}
-               else if bytes_eqb opt (str "wtime"%string) then {| movetime := movetime a; wtime := d; btime := btime a; winc := winc a; binc := binc a |}
-               else if bytes_eqb opt (str "btime"%string) then {| movetime := movetime a; wtime := wtime a; btime := d; winc := winc a; binc := binc a |}
-               else if bytes_eqb opt (str "winc"%string) then {| movetime := movetime a; wtime := wtime a; btime := btime a; winc := d; binc := binc a |}
-               else {| movetime := movetime a; wtime := wtime a; btime := btime a; winc := winc a; binc := d |} in
-      parse_go r a
-    end
-  end.
+Definition fmt_move (m : rmove) : list N := format_move false (of_rmove m).
+Definition info_line (pv : list rmove) (v d nodes : Z) : list N :=
+  str "info depth " ++ fmt_int d ++ str " time T nodes " ++ fmt_int nodes ++ str " score cp " ++ fmt_int v ++ str " pv" ++
+  flat_map (fun m => 32 :: fmt_move m) pv.
+Definition bestmove_line (m : rmove) : list N := str "bestmove " ++ fmt_move m.
 
-Definition fmt_z (z : Z) : list N := fmt_int z.
+(* what one `go` did: the position and time limit handed to the searcher, and whether the searcher was built by this go *)
+Record goinfo := { g_pos : position; g_limit : option Z; g_fresh : bool }.
+Record goresult := { gr_eng : engine; gr_out : list (list N); gr_crashed : bool; gr_go : option goinfo }.
 
-(* one `go`: output lines, or nothing when the command is refused; Crashed when pv is empty *)
-Definition do_go (e : engine) (ws : list (list N)) : engine * list (list N) * bool (* crashed *) :=
+(* Engine.analyze; args = words[1..] *)
+Definition do_go (e : engine) (args : list (list N)) : goresult :=
   match e_pos e with
-  | None => (e, [], false)
+  | None => {| gr_eng := e; gr_out := []; gr_crashed := false; gr_go := None |}                 (* "No position provided" *)
   | Some p =>
-    let cfg := mkcfg (e_size e) in
-    let mm := match e_mm e with Some s => s | None => new_state 0 end in
+    let fresh := match e_mm e with Some _ => false | None => true end in
+    let mm := match e_mm e with Some s => s | None => (e_size e, mk_searcher (e_size e)) end in
     let e1 := {| e_mm := Some mm; e_pos := e_pos e; e_size := e_size e |} in
-    match parse_go (tl ws) {| movetime := 0; wtime := 0; btime := 0; winc := 0; binc := 0 |} with
-    | None => (e1, [], false)
-    | Some _ =>
-      (* budgets are assumed generous: the deadline never cuts the search (the generator guarantees it) *)
-      let '(mm', (pv, v, d, stt, _)) := analyze_search basis cfg mm p in
-      let info := str "info depth "%string ++ fmt_z d ++ str " time T nodes "%string ++ fmt_z (s_visited stt) ++ str " score cp "%string ++ fmt_z v ++ str " pv"%string ++
-                  flat_map (fun m => 32 :: format_move false {| PtnMove.mX := Move.mX m; PtnMove.mY := Move.mY m; PtnMove.mT := Move.mT m; PtnMove.mS := Move.mS m |}) pv in
-      match pv with
-      | [] => ({| e_mm := Some mm'; e_pos := e_pos e; e_size := e_size e |}, [info], true)
-      | m :: _ => ({| e_mm := Some mm'; e_pos := e_pos e; e_size := e_size e |},
-                   [info; str "bestmove "%string ++ format_move false {| PtnMove.mX := Move.mX m; PtnMove.mY := Move.mY m; PtnMove.mT := Move.mT m; PtnMove.mS := Move.mS m |}], false)
+    match parse_go args targs0 with
+    | None => {| gr_eng := e1; gr_out := []; gr_crashed := false; gr_go := None |}
+    | Some a =>
+      let limit := go_limit (to_move_white p) a in
+      match analyze_mm mm limit p with
+      | Ok (s', (pv, v, d, nodes)) =>
+        let e2 := {| e_mm := Some (fst mm, s'); e_pos := e_pos e; e_size := e_size e |} in
+        let gi := Some {| g_pos := p; g_limit := limit; g_fresh := fresh |} in
+        match pv with
+        | [] => {| gr_eng := e2; gr_out := []; gr_crashed := false; gr_go := gi |}             (* repair 84e634c: error, logged *)
+        | m :: _ => {| gr_eng := e2; gr_out := [info_line pv v d nodes; bestmove_line m]; gr_crashed := false; gr_go := gi |}
+        end
+      | _ => {| gr_eng := e1; gr_out := []; gr_crashed := true; gr_go := None |}
       end
     end
   end.
 
-Fixpoint run (lines : list (list N)) (e : engine) (out : list (list N)) : engine * list (list N) * status :=
+Definition s_tei := str "tei". Definition s_quit := str "quit". Definition s_teinewgame := str "teinewgame".
+Definition s_position := str "position". Definition s_go := str "go". Definition s_stop := str "stop". Definition s_isready := str "isready".
+Definition tei_banner : list (list N) := [str "id name Taktician"; str "id author Nelson Elhage"; str "teiok"].
+
+Record stepresult := { sr_eng : engine; sr_out : list (list N); sr_status : status; sr_go : option goinfo }.
+Definition sr (e : engine) (o : list (list N)) (s : status) : stepresult := {| sr_eng := e; sr_out := o; sr_status := s; sr_go := None |}.
+
+(* one iteration of Run's loop, on one line (without its "\n") *)
+Definition step (e : engine) (line : list N) : stepresult :=
+  match fields line with
+  | [] => sr e [] Running
+  | w0 :: args =>
+    if bytes_eqb w0 s_tei then sr e tei_banner Running
+    else if bytes_eqb w0 s_quit then sr e [] Quit
+    else if bytes_eqb w0 s_teinewgame then
+      match args with
+      | [] => sr {| e_mm := None; e_pos := None; e_size := 5 |} [] Running
+      | a :: _ => let '(n, ok) := atoi_go a in
+                  let e' := {| e_mm := None; e_pos := None; e_size := n |} in
+                  if negb ok || (n <? 3)%Z || (8 <? n)%Z then sr e' [] Failed else sr e' [] Running
+      end
+    else if bytes_eqb w0 s_position then
+      match parse_position (e_size e) args with
+      | Ok p => sr {| e_mm := e_mm e; e_pos := Some p; e_size := e_size e |} [] Running
+      | Err => sr {| e_mm := e_mm e; e_pos := None; e_size := e_size e |} [] Failed
+      | Panic => sr e [] Crashed
+      end
+    else if bytes_eqb w0 s_go then
+      let g := do_go e args in
+      {| sr_eng := gr_eng g; sr_out := gr_out g; sr_status := if gr_crashed g then Crashed else Running; sr_go := gr_go g |}
+    else if bytes_eqb w0 s_stop then sr e [] Running
+    else if bytes_eqb w0 s_isready then sr e [str "readyok"] Running
+    else sr e [] Failed
+  end.
+
+(* Run on the lines of a stream that then ends: (engine, output, how Run returned, the go's in order) *)
+Fixpoint run (lines : list (list N)) (e : engine) : engine * list (list N) * status * list goinfo :=
   match lines with
-  | [] => (e, out, Running)                                              (* EOF: Run returns nil *)
+  | [] => (e, [], Running, [])                                           (* EOF: Run returns nil *)
   | line :: rest =>
-    match fields line with
-    | [] => run rest e out
-    | w0 :: args =>
-      if bytes_eqb w0 (str "tei"%string) then run rest e (out ++ [str "id name Taktician"%string; str "id author Nelson Elhage"%string; str "teiok"%string])
-      else if bytes_eqb w0 (str "quit"%string) then (e, out, Quit)
-      else if bytes_eqb w0 (str "teinewgame"%string) then
-        match args with
-        | [] => run rest {| e_mm := None; e_pos := None; e_size := 5 |} out
-        | a :: _ => match atoi a with
-                    | Some n => if ((n <? 3) || (8 <? n))%Z then ({| e_mm := None; e_pos := None; e_size := n |}, out, Failed)
-                                else run rest {| e_mm := None; e_pos := None; e_size := n |} out
-                    | None => ({| e_mm := None; e_pos := None; e_size := 0 |}, out, Failed)
-                    end
-        end
-      else if bytes_eqb w0 (str "position"%string) then
-        match parse_position (e_size e) (w0 :: args) with
-        | Ok p => run rest {| e_mm := e_mm e; e_pos := Some p; e_size := e_size e |} out
-        | Err => (e, out, Failed)
-        | Panic => (e, out, Crashed)
-        end
-      else if bytes_eqb w0 (str "go"%string) then
-        let '(e', o, crashed) := do_go e (w0 :: args) in
-        if crashed then (e', out ++ o, Crashed) else run rest e' (out ++ o)
-      else if bytes_eqb w0 (str "stop"%string) then run rest e out
-      else if bytes_eqb w0 (str "isready"%string) then run rest e (out ++ [str "readyok"%string])
-      else (e, out, Failed)
+    let r := step e line in
+    let gs := match sr_go r with Some g => [g] | None => [] end in
+    match sr_status r with
+    | Running => let '(e', o, s, gs') := run rest (sr_eng r) in (e', sr_out r ++ o, s, gs ++ gs')
+    | s => (sr_eng r, sr_out r, s, gs)
     end
   end.
+
+(* the complete "\n"-terminated lines of a byte stream *)
+Fixpoint lines_go (s : list N) (cur : list N) : list (list N) :=
+  match s with
+  | [] => []                                                             (* unterminated rest: ReadString returns io.EOF *)
+  | c :: r => if c =? 10 then rev cur :: lines_go r [] else lines_go r (c :: cur)
+  end.
+Definition lines_of (s : list N) : list (list N) := lines_go s [].
+Definition run_bytes (s : list N) (e : engine) := run (lines_of s) e.
 End E.
+
+Arguments e_mm {SS}. Arguments e_pos {SS}. Arguments e_size {SS}.
+Arguments sr_eng {SS}. Arguments sr_out {SS}. Arguments sr_status {SS}. Arguments sr_go {SS}.
+Arguments gr_eng {SS}. Arguments gr_out {SS}. Arguments gr_crashed {SS}. Arguments gr_go {SS}.
